@@ -16,7 +16,7 @@ import traceback
 import numpy as np
 
 from qv import workloads
-from qv.lib import EXCH, Rec, diff_snap, install_exchange_counter, rng_for, snap_atoms, trace, vstr
+from qv.lib import Rec, diff_snap, install_exchange_counter, rng_for, snap_atoms, trace, vstr, exch_finding_applies, exch_reset
 from qv.props.c05 import classify_exception, table_shape
 
 LEVEL = "exploration"
@@ -77,8 +77,7 @@ def run_one(rec: Rec, spec, steps, family):
                 seen.add(id(m))
                 moves.append((name, m))
     st = {}
-    EXCH["ok"] = 0
-    EXCH["second_started"] = False
+    exch_reset()
 
     def viol(key, what, witness, crashed=False):
         # only a crash after such a trial, or a violation in the very trial in which two exchange moves acted, is
@@ -95,11 +94,10 @@ def run_one(rec: Rec, spec, steps, family):
     def on_trial(t):
         rec.count("trials")
         rec.evaluations += 1
-        st["two_exchanges_this_trial"] = EXCH["ok"] >= 2 or EXCH["second_started"]
-        if EXCH["ok"] >= 2 or EXCH["second_started"]:
+        st["two_exchanges_this_trial"] = exch_finding_applies()
+        if exch_finding_applies():
             st["two_exchanges"] = True
-        EXCH["ok"] = 0
-        EXCH["second_started"] = False
+        exch_reset()
         if cons != "none":
             rec.count("trials_with_constraints")
         if t.verdict is True:
@@ -179,7 +177,7 @@ def run_one(rec: Rec, spec, steps, family):
     try:
         trace(mc, steps, snap=snap, on_trial=on_trial, at_yield=at_yield)
     except Exception as ex:  # noqa: BLE001
-        if EXCH["ok"] >= 2 or EXCH["second_started"]:
+        if exch_finding_applies():
             st["two_exchanges"] = True
         viol(f"C03/run-raised/{classify_exception(ex)}", f"simulation raised {type(ex).__name__}: {ex}"[:300], {**wit0, "traceback": traceback.format_exc()[-700:]}, crashed=True)
 
